@@ -1150,6 +1150,15 @@ VARIANTS += [
 ]
 
 
+# positional operands (alpha-rename audit)
+VARIANTS += [
+    dict(prop="C01", name="shard-merge-adds-self-twice", expect=["SAT-merge", "operands"],
+         edits=[dict(file='ipa-core/src/protocol/basics/shard_fin.rs', find='                &self.values,\n                &other.values,\n', replace='                &self.values,\n                &self.values,\n')]),
+    dict(prop="C13", name="send-route-uses-default-gate", expect=["KEY-send", "route-from-channel-id"],
+         edits=[dict(file='ipa-core/src/helpers/gateway/send.rs', find='                    let ChannelId { peer, gate } = channel_id.clone();\n', replace='                    let ChannelId { peer, gate: _ } = channel_id.clone();\n                    let gate = crate::protocol::Gate::default();\n')]),
+]
+
+
 VARIANTS += [
     dict(prop="C03", name="hash-skips-first-element", expect=['HASH-cover', 'iterates-its-whole-argument'],
          edits=[dict(file="ipa-core/src/helpers/hashing.rs", find='    for x in input {\n        is_empty = false;\n        x.serialize(&mut buf);\n        sha.update(&buf);\n    }', replace='    for x in input.into_iter().skip(1) {\n        is_empty = false;\n        x.serialize(&mut buf);\n        sha.update(&buf);\n    }')]),
